@@ -774,6 +774,8 @@ class Interp:
             if op == "Offset":
                 return self.ptr_offset(st, a, b, inst, span)
             return fresh_of_type(ty)
+        if ty is not None and ty.get("k") == "float":
+            return new_top()
         A, B = st.get_iv(a), st.get_iv(b)
         if op in ("Eq", "Ne", "Lt", "Le", "Gt", "Ge"):
             return self.cmp(st, op, a, b)
@@ -863,7 +865,17 @@ class Interp:
                     r = G.cons.get(k)
                     if r is None:
                         r = G.cons[k] = new_int(0, B[0], ("andc", a, B[0]))
-                    st.set_iv(r, 0, hi)
+                    lo = 0
+                    mk = B[0]
+                    if mk > 0:
+                        # mask = ones in bit positions [lowb, topb): if every value of the operand has the same bits above topb,
+                        # the field below topb ranges over an interval and the masked value is that interval with its low bits cleared
+                        lowb = (mk & -mk).bit_length() - 1
+                        topb = mk.bit_length()
+                        if (mk >> lowb) + 1 == 1 << (topb - lowb) and (A[0] >> topb) == (A[1] >> topb):
+                            m0, m1 = A[0] & ((1 << topb) - 1), A[1] & ((1 << topb) - 1)
+                            lo, hi = (m0 >> lowb) << lowb, min(hi, (m1 >> lowb) << lowb)
+                    st.set_iv(r, lo, hi)
                     return r
                 if A[0] == A[1]:
                     return self.binop(st, op, b, a, ty)
@@ -882,6 +894,12 @@ class Interp:
                 st.set_iv(r, max(A[0], B[0]), max(A[1], B[1]))
                 return r
             if A[0] >= 0 and B[0] >= 0:
+                for (x, X), (y, Y) in (((a, A), (b, B)), ((b, B), (a, A))):
+                    dy = G.df.get(y)
+                    if dy and dy[0] == "shl_c" and X[1] < (1 << dy[2]):
+                        return new_int(X[0] + Y[0], X[1] + Y[1])     # disjoint bit ranges: or == add
+                    if Y[0] == Y[1] and Y[0] > 0 and X[1] < (Y[0] & -Y[0]):
+                        return new_int(X[0] + Y[0], X[1] + Y[0])
                 m = max(A[1], B[1])
                 hi = (1 << m.bit_length()) - 1
                 return new_int(max(A[0], B[0]), max(hi, 0))
@@ -912,6 +930,10 @@ class Interp:
                         st.set_iv(r, lo, hi)
                         return r
                     return new_int(lo, hi)
+                # bits are shifted out, but they are the same bits for every value of the operand: the rest is an interval again
+                if B[0] == B[1] and not ty["signed"] and (A[0] >> (bits - B[0])) == (A[1] >> (bits - B[0])):
+                    msk = (1 << (bits - B[0])) - 1
+                    return new_int((A[0] & msk) << B[0], (A[1] & msk) << B[0])
                 # w << ((w >> (bits-1)) ^ 1): shifts by one exactly when the top bit is clear
                 db = G.df.get(b)
                 if db and db[0] == "xor1" and not ty["signed"]:
@@ -1061,6 +1083,10 @@ class Interp:
                 r = trange(tty)
                 if A[0] >= r[0] and A[1] <= r[1]:
                     return a
+            if is_int(a) and tty.get("k") == "float" and getattr(self.ctx, "float_bits", False):
+                A = st.get_iv(a)
+                if A[0] >= 0 and A[1] < (1 << tty["bits"]):
+                    return a                      # bit-level jobs carry floats as their bit patterns
             return fresh_of_type(tty)
         if kind.startswith("PointerCoercion"):
             return a
